@@ -34,7 +34,9 @@ EnvValues == {"unset", "0", "1", "true", "TRUE", "yes"}
 EnvTruthy(v) == v \in {"1", "true", "TRUE"}
 PathClasses == {"inside", "outside", "symlink", "sibling"}     \* sibling: /base_evil next to /base
 Contained(pc) == pc = "inside"
-DirModes == {"none", "caller", "source"}                        \* where allowed base directories come from
+DirModes == {"none", "caller", "source", "resolver"}            \* where allowed base directories come from (source: the location of
+                                                                \* the pipeline file, given by the caller; resolver: the same, derived by
+                                                                \* the pipeline resolver from the file name it loads)
 
 \* case == [kind, depth, inject (set of levels with truthy opt-in keys written into the document),
 \*          caller (BOOLEAN: the opt-in argument for this kind's capability), env, pathclass, dirs]
